@@ -103,7 +103,7 @@ pub fn trunc20(alg: &'static ring::digest::Algorithm, data: &[u8]) -> Vec<u8> {
 
 pub fn key_json(k: &KeyInfo) -> Value {
 	json!({
-		"h": k.h, "alg": k.alg, "type": k.ktype, "src": k.src, "spki": hex(&k.spki),
+		"h": k.h, "alg": k.alg, "type": k.ktype, "src": k.src, "spki": hex(&k.spki), "raw": hex(&k.raw_pub),
 		"sha256": bytes_json(&trunc20(&ring::digest::SHA256, &k.spki)),
 		"sha384": bytes_json(&trunc20(&ring::digest::SHA384, &k.spki)),
 		"sha512": bytes_json(&trunc20(&ring::digest::SHA512, &k.spki)),
